@@ -6,7 +6,8 @@
 //    bytes are available - however the underlying reader fragments them and however often it
 //    reports `Interrupted` (read_exact retries those) - then `buf` holds exactly those bytes and
 //    the stream advanced by buf.len().  On failure nothing is known about `buf` or the reader.
-//  * A writer either accepts the whole buffer (sink extended by it) or reports an error.
+//  * A writer either accepts the whole buffer (sink extended by it) or reports an error (`write_all`); a single `write` / `read`
+//    may transfer any prefix.
 // ---------------------------------------------------------------------------
 pub mod std_io {
     #[allow(unused_imports)] use vstd::prelude::*;
@@ -20,6 +21,12 @@ pub mod std_io {
         fn write_all(&mut self, buf: &[u8]) -> (r: Result<()>)
             ensures r.is_err() == old(self).will_fail(),
                     r.is_ok() ==> final(self).sink() == old(self).sink() + buf@;
+        // `write` may accept any prefix of the buffer (std documentation: "may write only part of the buffer"); whether it reports an
+        // error is not tied to will_fail() (a writer that would fail later can still accept a first fragment)
+        fn write(&mut self, buf: &[u8]) -> (r: Result<usize>)
+            ensures r matches Ok(n) ==> n <= buf@.len() && final(self).sink() == old(self).sink() + buf@.subrange(0, n as int);
+        fn flush(&mut self) -> (r: Result<()>)
+            ensures final(self).sink() == old(self).sink();
     }
     pub trait Read {
         spec fn stream(&self) -> Seq<u8>;
@@ -28,5 +35,11 @@ pub mod std_io {
                     final(buf)@.len() == old(buf)@.len(),
                     r.is_ok() ==> final(buf)@ == old(self).stream().subrange(0, old(buf)@.len() as int),
                     r.is_ok() ==> final(self).stream() == old(self).stream().subrange(old(buf)@.len() as int, old(self).stream().len() as int);
+        // `read` may deliver any number of bytes up to the buffer length (std documentation), 0 included
+        fn read(&mut self, buf: &mut [u8]) -> (r: Result<usize>)
+            ensures final(buf)@.len() == old(buf)@.len(),
+                    r matches Ok(n) ==> n <= old(buf)@.len() && n <= old(self).stream().len()
+                        && final(buf)@.subrange(0, n as int) == old(self).stream().subrange(0, n as int)
+                        && final(self).stream() == old(self).stream().subrange(n as int, old(self).stream().len() as int);
     }
 }
